@@ -1,6 +1,7 @@
 import NxProofs.PrudpPayload
 import NxProofs.CryptoAgree
 import NxProofs.PrudpChecked
+import NxModel.Crypto.Inflate
 /-!
 # C08 — PRUDP bytes on the wire match the protocol specification
 
@@ -158,5 +159,15 @@ theorem l1_connection_signatures_are_reference (a : L1.Addr) :
   ⟨rfl, rfl, rfl⟩
 
 theorem l1_unreliable_base_key_is_reference (key : Bytes) : L1.initUnreliableKey key = initUnreliableKey key := rfl
+
+/-! ### the reference's inflater (RFC 1950 / 1951, `NxModel/Crypto/Inflate.lean`) on published-format streams
+
+These are TESTS (closed examples evaluated by the kernel), not a theorem about all streams: a stored block as zlib itself
+emits it and a damaged header (the Huffman paths take the kernel half a minute per example on arrays, so they are left to the
+compiled driver). The agreement with `zlib.decompress`
+on arbitrary streams is established differentially on every run (valid streams of every level / strategy / window size /
+flush mode; truncated, bit-flipped, re-headed and over-long ones). -/
+example : Crypto.zlibDecompress [120, 1, 1, 5, 0, 250, 255, 104, 101, 108, 108, 111, 6, 44, 2, 21] = some [104, 101, 108, 108, 111] := by decide +kernel
+example : Crypto.zlibDecompress [120, 219, 203, 72, 205, 201, 201, 7, 0, 6, 44, 2, 21] = none := by decide +kernel   -- header check fails
 
 end Nx.C08
